@@ -129,6 +129,16 @@ pub fn build(seed: u64, case: u64, tag: &str) -> Scenario {
                 w.spec.insert(name.to_string(), n);
             }
         }
+        // two files with identical multi-block content: the second is stored by deduplication
+        // against blocks the same run has (or has failed to) just written
+        if !w.spec.contains_key("/zdup1") {
+            let content = gen_content(&mut rng, opts.block + opts.block / 2 + 3);
+            for name in ["/zdup1", "/zdup2"] {
+                let mut n = Node::file(content.clone());
+                (n.mtime_s, n.mtime_ns) = w.clock.next(&mut rng);
+                w.spec.insert(name.to_string(), n);
+            }
+        }
         if !w.spec.contains_key("/zbig") {
             let mut n = Node::file(gen_content(&mut rng, opts.block * 2 + 5));
             (n.mtime_s, n.mtime_ns) = w.clock.next(&mut rng);
